@@ -183,6 +183,9 @@ type Req struct {
 	// delimiter). The request may be refused as a whole; if it is accepted, the handler receives what the client sent
 	// in the parts that arrived - never defaults in their place. (r6)
 	CutTail int `json:"cut_tail,omitempty"`
+	// PreParsed: a middleware in front has called ParseForm on the request (to read a query flag) before the
+	// parameters are bound. (r9)
+	PreParsed bool `json:"pre_parsed,omitempty"`
 }
 
 type Case struct {
